@@ -48,7 +48,8 @@ def dask_case(draw, names=None):
     dg = draw(gen.dir_grid(3, 12, spacing=("whole", "dyadic")))
     dims = [["time", draw(st.integers(2, 4))]] + ([["site", draw(st.integers(1, 3))]] if draw(st.booleans()) else [])
     npos = int(np.prod([n for _, n in dims]))
-    specs = [draw(gen.spectrum(kinds=("multinoisy",))) for _ in range(min(npos, 4))]
+    # one record in five carries no energy (calm / land / ice points are ordinary members of model output)
+    specs = [draw(gen.spectrum(kinds=("multinoisy", "multinoisy", "multinoisy", "multinoisy", "zero"))) for _ in range(min(npos, 4))]
     winds = [dict(wspd=draw(st.floats(1, 35)), wdir=draw(st.floats(0, 360)), dpt=draw(st.sampled_from([2.0, 20.0, 300.0]))) for _ in range(min(npos, 4))]
     names = names or (list(ops.CATALOGUE) + EXTRA_OPS)
     op = draw(ops.op_spec(names=[n for n in names if n in ops.CATALOGUE] or None, has_dir=True, nf=len(fg["f"])))
@@ -117,6 +118,12 @@ def check_dask(case, ctx):
         except Exception as e:  # noqa: BLE001
             err = e
         ctx.evals += 1
+        # a computation must not leave the process turning warnings into errors: every later operation that merely warns
+        # (a zero-energy record is enough) would then raise, i.e. results would depend on what was computed before, and how
+        import warnings as _w
+        if any(f[0] == "error" for f in _w.filters):
+            raise Violation("warnings-filter-leak", "after %s (scheduler %s, chunks %s) the process-wide warnings filters contain %s" % (
+                name, case["sched"], case["chunks"], [f[:3] for f in _w.filters if f[0] == "error"]))
         if mem_err is not None:
             if err is None or type(err) is not type(mem_err):
                 raise Violation("exception-mismatch", "%s raises %r in memory but %r on dask-backed data" % (name, mem_err, err))
@@ -135,6 +142,31 @@ def check_dask(case, ctx):
             tol = max(tol, 1e-6)
         if fam == "fit":
             tol = max(tol, 1e-3)
+            # an iterative least-squares fit can sit on a flat valley: probe its conditioning with the same in-memory call on
+            # data perturbed in the last bits (what another summation order does) and judge only parameters that do not move
+            try:
+                wob = x.copy(data=x.values * (1.0 + 1e-13 * np.cos(np.arange(x.size)).reshape(x.shape)))
+                rp = _apply(name, case["op"], wob, aux)
+                rp = tuple(r.compute() for r in rp) if isinstance(rp, tuple) else rp.compute()
+                pa, pp, pb = ops.parts_of(ra), ops.parts_of(rp), ops.parts_of(rb)
+                shaky = None
+                for k in pa:
+                    va, vp = np.asarray(pa[k].values, dtype=float), np.asarray(pp[k].transpose(*pa[k].dims).values, dtype=float)
+                    bad = ~(np.abs(va - vp) <= 1e-6 * np.maximum(np.abs(va), np.abs(vp))) & ~(np.isnan(va) & np.isnan(vp))
+                    bad = bad.any(axis=tuple(i for i, d in enumerate(pa[k].dims) if d in ("freq", "dir"))) if any(d in ("freq", "dir") for d in pa[k].dims) else bad
+                    shaky = bad if shaky is None else (shaky | bad)
+                if shaky is not None and shaky.any():
+                    ctx.label("fit-ill-conditioned(masked)")
+                    lead_dims = [d for d in next(iter(pa.values())).dims if d not in ("freq", "dir")]
+                    import xarray as xr
+
+                    mask = xr.DataArray(~shaky, dims=lead_dims)
+                    ra = ra.where(mask) if not isinstance(ra, tuple) else tuple(r.where(mask) for r in ra)
+                    rb = rb.where(mask) if not isinstance(rb, tuple) else tuple(r.where(mask) for r in rb)
+            except Violation:
+                raise
+            except Exception:  # noqa: BLE001 - the probe is advisory
+                pass
         msg = ops.compare(ra, rb, tol, fam, "%s chunks=%s sched=%s vs in-memory" % (name, case["chunks"], case["sched"]), atol_rel=(1e-7 if fam in ("width", "widthf", "peakwidth") else None))
         if msg:
             raise Violation("dask-differs", msg)
